@@ -5,29 +5,42 @@ import json, os, re, subprocess, sys, shutil
 SRC = "/tmp/seed"
 DST = "/verif/seeded"
 confirm = {}
-for log in ("/verif/build/confirm1.log", "/verif/build/confirm2.log"):
+for log in ("/verif/build/confirm1.log", "/verif/build/confirm2.log", "/tmp/seed/confirm2.log", "/tmp/seed/confirm3.log"):
     if os.path.exists(log):
         for l in open(log):
-            m = re.match(r"(C\d+)/([ab]) suite=\[(.*?)\] nodefault_errors=(\d+) with=\[(.*?)\] without=\[(.*?)\]", l)
+            m = re.match(r"(C\d+)/([a-z]) suite=\[(.*?)\] nodefault_errors=(\d+) with=\[(.*?)\] without=\[(.*?)\]", l)
             if m:
                 confirm[(m.group(1), m.group(2))] = {"suite_with_change": m.group(3), "no_default_features_build_errors": int(m.group(4)),
                                                      "demo_with_change": m.group(5), "demo_without_change": m.group(6)}
 only = sys.argv[1:]
-for pid in sorted(os.listdir(SRC)):
-    if not re.fullmatch(r"C\d+", pid):
-        continue
-    for v in ("a", "b"):
-        src = os.path.join(SRC, pid, "out", v)
-        if not os.path.exists(os.path.join(src, "patch.diff")):
+# import step: copy any freshly produced, confirmed change from the scratch area
+if os.path.isdir(SRC):
+    for pid in sorted(os.listdir(SRC)):
+        if not re.fullmatch(r"C\d+", pid):
             continue
-        name = "%s-%s" % (pid, v)
+        outd = os.path.join(SRC, pid, "out")
+        for v in sorted(os.listdir(outd)) if os.path.isdir(outd) else []:
+            src = os.path.join(outd, v)
+            if not os.path.exists(os.path.join(src, "patch.diff")) or (pid, v) not in confirm:
+                continue
+            dst = os.path.join(DST, "%s-%s" % (pid, v))
+            os.makedirs(dst, exist_ok=True)
+            for f in ("patch.diff", "demo.rs", "notes.md"):
+                if os.path.exists(os.path.join(src, f)):
+                    shutil.copy(os.path.join(src, f), os.path.join(dst, f))
+for name in sorted(os.listdir(DST)):
+    m0 = re.fullmatch(r"(C\d+)-([a-z])", name)
+    if not m0:
+        continue
+    pid, v = m0.group(1), m0.group(2)
+    if True:
         if only and name not in only and pid not in only:
             continue
         dst = os.path.join(DST, name)
-        os.makedirs(dst, exist_ok=True)
-        for f in ("patch.diff", "demo.rs", "notes.md"):
-            if os.path.exists(os.path.join(src, f)):
-                shutil.copy(os.path.join(src, f), os.path.join(dst, f))
+        old_meta = {}
+        if os.path.exists(os.path.join(dst, "meta.json")):
+            try: old_meta = json.load(open(os.path.join(dst, "meta.json")))
+            except Exception: old_meta = {}
         subprocess.run(["git", "-C", "/repo", "checkout", "--", "."], check=True)
         ap = subprocess.run(["git", "-C", "/repo", "apply", os.path.join(dst, "patch.diff")], capture_output=True, text=True)
         if ap.returncode != 0:
@@ -54,7 +67,7 @@ for pid in sorted(os.listdir(SRC)):
             "variant": v,
             "breaks": "see notes.md (written by the sub-agent that produced the change, given only the property text)",
             "needs_to_manifest": (m.group(0)[:700] if m else "see notes.md"),
-            "confirmed_by_me": confirm.get((pid, v), "not re-run"),
+            "confirmed_by_me": confirm.get((pid, v), old_meta.get("confirmed_by_me", "not re-run")),
             "what_i_ran": ["/verif/confirm_seed.sh %s %s  (suite unchanged: 239 passed / the 2 baseline failures; demo fails with the change, passes without)" % (pid, v),
                            "git -C /repo apply patch.diff; ./check %s; git -C /repo checkout -- ." % pid],
             "check_result": {"exit": p.returncode, "violation_line": viol[0] if viol else None, "summary": summary, "replay": detail},
